@@ -246,7 +246,9 @@ def coq_props(pid, extra_files=(), timeout=1500):
     ok, log = coq_make(targets, timeout=timeout, keep_going=True)
     res["log"] = log
     for f in files:
-        if os.path.exists(os.path.join(COQ, f[:-2] + ".vo")) and _fresh(os.path.join(COQ, f)):
+        # discharged = make considers the .vo up to date with ALL its
+        # dependencies (a failed rebuild leaves a stale .vo behind)
+        if os.path.exists(os.path.join(COQ, f[:-2] + ".vo")) and (ok or _uptodate(f[:-2] + ".vo")):
             res["discharged"] += ["%s:%s" % (f, n) for n in _THM.findall(open(os.path.join(COQ, f)).read())]
     if not ok:
         m = re.search(r"(File \"[^\"]+\", line \d+[^\n]*\n(?:.*\n){0,12})", log)
@@ -263,6 +265,12 @@ def coq_props(pid, extra_files=(), timeout=1500):
     res["assumptions"], res["axioms"] = parse_assumptions(open(src).read(), out)
     res["ok"] = True
     return res
+
+
+def _uptodate(target):
+    with Lock("coq"):
+        rc, _ = run(["make", "-f", "Makefile.coq", "-q", target], cwd=COQ, timeout=300)
+    return rc == 0
 
 
 def _fresh(vfile):
